@@ -372,3 +372,164 @@ def wiring(rng, kind: Optional[str] = None) -> Tuple[str, List[str], List[str], 
     if kind == "fan":
         return kind, ["i1"], ["m1", "m2", "o1"], ["m1", "m2", "i1"], ["p1"]
     raise ValueError(kind)
+
+
+# --------------------------------------------------------------------------------------
+# containment pairs (C03)
+
+
+def feasible_point_list(rng, vs: Sequence[str], n: int, style: str = "int") -> List[Dict[str, Any]]:
+    """n random terms that all hold at a hidden random integer point (so the list is feasible)."""
+    pt = {v: float(rng.randint(-3, 3)) for v in vs}
+    out = []
+    for _ in range(n):
+        t = rterm(rng, vs, 3, style)
+        val = sum(c * pt[v] for v, c in t["c"].items())
+        t["k"] = val + abs(const(rng, style, 0, 4))
+        out.append(t)
+    return out
+
+
+def containment_pair(rng) -> Dict[str, Any]:  # noqa: C901
+    fam = rng.choice(["unrelated", "weaken", "farkas", "boundary", "separated", "reflexive", "sublist",
+                      "unbounded", "emptyleft", "emptyright", "near", "unrelated", "farkas", "weaken"])
+    style = rng.choice(["int", "int", "dyadic", "int", "decimal", "float"])
+    if fam in ("near",):
+        style = "int"
+    nv = rng.randint(1, 4)
+    vs = VN[:nv]
+    nl = rng.randint(1, 5)
+    left = feasible_point_list(rng, vs, nl, style) if rng.random() < 0.8 else rlist(rng, vs, nl, 3, style)
+    right: List[Dict[str, Any]]
+    if fam == "unrelated":
+        right = rlist(rng, vs, rng.randint(1, 3), 3, style)
+    elif fam == "weaken":
+        sel = rng.sample(left, rng.randint(1, len(left)))
+        right = [weaken(rng, t, style) if rng.random() < 0.7 else dict(t) for t in sel]
+    elif fam == "farkas":
+        right = []
+        for _ in range(rng.randint(1, 3)):
+            acc = None
+            for t in rng.sample(left, rng.randint(1, min(3, len(left)))):
+                f = float(rng.choice([1, 2, 3, 0.5]))
+                acc = scale(t, f) if acc is None else add(acc, t, 1.0, f)
+                if acc is None:
+                    break
+            if acc is None:
+                continue
+            if rng.random() < 0.5:
+                acc["k"] += abs(const(rng, style, 0, 3))
+            right.append(acc)
+        if not right:
+            right = [dict(left[0])]
+    elif fam == "boundary":
+        right = []
+        for t in rng.sample(left, rng.randint(1, len(left))):
+            r = rng.random()
+            if r < 0.4:
+                right.append({"c": dict(t["c"]), "k": t["k"]})
+            elif r < 0.8:
+                right.append(scale(t, float(rng.choice([2, 3, 4, 0.5, 0.25]))))
+            else:
+                right += [{"c": dict(t["c"]), "k": t["k"]}] * 2
+    elif fam == "separated":
+        r = rterm(rng, vs, 3, style)
+        gap = abs(const(rng, style, 1, 4)) + 1.0
+        beyond = {"c": {v: -c for v, c in r["c"].items()}, "k": -(r["k"] + gap)}
+        left = left[: rng.randint(0, 2)] + [beyond]
+        right = [r] + rlist(rng, vs, rng.randint(0, 2), 3, style)
+        rng.shuffle(right)
+    elif fam == "reflexive":
+        right = [{"c": dict(t["c"]), "k": t["k"]} for t in left]
+        if rng.random() < 0.3:
+            rng.shuffle(right)
+    elif fam == "sublist":
+        right = [dict(t) for t in rng.sample(left, rng.randint(1, len(left)))]
+    elif fam == "unbounded":
+        vs = VN[: rng.randint(3, 5)]
+        left = feasible_point_list(rng, vs, rng.randint(1, 2), style)
+        right = [weaken(rng, rng.choice(left), style)] if rng.random() < 0.5 else rlist(rng, vs, 1, 2, style)
+    elif fam == "emptyleft":
+        t = rterm(rng, vs, 2, style)
+        left = left + [t, {"c": {v: -c for v, c in t["c"].items()}, "k": -(t["k"] + 1 + abs(const(rng, style, 0, 3)))}]
+        rng.shuffle(left)
+        right = rlist(rng, vs, rng.randint(1, 3), 3, style)
+    elif fam == "emptyright":
+        t = rterm(rng, vs, 2, style)
+        right = [t, {"c": {v: -c for v, c in t["c"].items()}, "k": -(t["k"] + 1 + abs(const(rng, style, 0, 3)))}]
+        right += rlist(rng, vs, rng.randint(0, 1), 2, style)
+        rng.shuffle(right)
+    else:  # near: right bound just inside / outside the left one
+        t = rng.choice(left)
+        eps = rng.choice([0.0, 1e-9, -1e-9, 1e-6, -1e-6, 1e-3, -1e-3, 1e-2, -1e-2, 0.5, -0.5])
+        right = [{"c": dict(t["c"]), "k": t["k"] + eps}]
+    return {"kind": "list", "family": fam, "style": style, "left": left, "right": right}
+
+
+def contract_pair(rng) -> Dict[str, Any]:
+    """Two contracts over a common interface for the refinement test."""
+    style = rng.choice(["int", "int", "dyadic", "decimal"])
+    ins = ["i1", "i2"][: rng.randint(1, 2)]
+    outs = ["o1", "o2"][: rng.randint(1, 2)]
+    c1 = rcontract(rng, ins, outs, style)
+    fam = rng.choice(["unrelated", "weaker", "under_assumptions", "same", "stronger", "iface"])
+    if fam == "unrelated":
+        c2 = rcontract(rng, ins, outs, style)
+    elif fam == "same":
+        c2 = {"in": list(ins), "out": list(outs), "a": [dict(t) for t in c1["a"]], "g": [dict(t) for t in c1["g"]]}
+        if rng.random() < 0.5:
+            rng.shuffle(c2["in"])
+            rng.shuffle(c2["out"])
+    elif fam == "weaker":
+        # c2 assumes more, guarantees less  ->  c1 <= c2
+        a2 = [dict(t) for t in c1["a"]] + rlist(rng, ins, rng.randint(0, 2), 2, style)
+        g2 = [weaken(rng, t, style) if rng.random() < 0.6 else dict(t) for t in c1["g"]]
+        g2 = rng.sample(g2, rng.randint(1, len(g2))) if g2 else g2
+        c2 = {"in": list(ins), "out": list(outs), "a": a2, "g": g2}
+    elif fam == "stronger":
+        a2 = rng.sample(c1["a"], rng.randint(0, len(c1["a"]))) if c1["a"] else []
+        g2 = [dict(t) for t in c1["g"]] + [rterm(rng, ins + outs, 2, style, must=outs)]
+        c2 = {"in": list(ins), "out": list(outs), "a": [dict(t) for t in a2], "g": g2}
+    elif fam == "under_assumptions":
+        # G1 subset G2 only where A2 holds:  A2: i <= u ; G1: o <= i + c ; G2: o <= u + c
+        i, o = ins[0], outs[0]
+        u = const(rng, style, 0, 5)
+        cc = abs(const(rng, style, 0, 3))
+        c1 = {"in": list(ins), "out": list(outs), "a": [], "g": [T({o: 1.0, i: -1.0}, cc)]}
+        c2 = {"in": list(ins), "out": list(outs), "a": [T({i: 1.0}, u)],
+              "g": [T({o: 1.0}, u + cc + rng.choice([0.0, 0.0, 1.0, -1.0]))]}
+    else:  # iface
+        ins2 = list(ins)
+        outs2 = list(outs)
+        r = rng.random()
+        if r < 0.35:
+            ins2 = ins2 + ["zz"]
+        elif r < 0.7:
+            outs2 = outs2 + ["zz"]
+        else:
+            outs2 = ["q" + o for o in outs2]
+        c2 = rcontract(rng, ins2, outs2, style)
+    return {"kind": "contract", "family": fam, "style": style, "c1": c1, "c2": c2}
+
+
+def membership_case(rng) -> Dict[str, Any]:
+    style = rng.choice(["int", "int", "dyadic"])
+    ins = ["i1", "i2"][: rng.randint(1, 2)]
+    outs = ["o1"]
+    c = rcontract(rng, ins, outs, style)
+    if rng.random() < 0.5:
+        kind = "env"
+        base = c["a"]
+        vs = ins
+    else:
+        kind = "impl"
+        base = c["g"]
+        vs = ins + outs
+    r = rng.random()
+    if base and r < 0.4:
+        comp = [dict(t) for t in base] + rlist(rng, vs, rng.randint(0, 2), 2, style)  # stronger -> member
+    elif base and r < 0.6:
+        comp = [weaken(rng, t, style) for t in base]
+    else:
+        comp = rlist(rng, vs, rng.randint(1, 3), 2, style)
+    return {"kind": kind, "family": kind, "style": style, "contract": c, "comp": comp}
